@@ -21,6 +21,7 @@ import (
 	"bytes"
 	"compress/flate"
 	"compress/gzip"
+	"compress/zlib"
 	"fmt"
 	"io"
 	"io/ioutil"
@@ -271,13 +272,14 @@ func (mv *MessageView) BodyReader(opts ...Option) (io.ReadCloser, error) {
 	if mv.chunked {
 		r = httputil.NewChunkedReader(r)
 	}
+	var bufr *bufio.Reader
 	if mv.compress == "gzip" || mv.compress == "deflate" {
 		// e.g. a chunked response to HEAD: "0\r\n" de-chunks to nothing.
-		br := bufio.NewReader(r)
-		if _, err := br.Peek(1); err == io.EOF {
-			return ioutil.NopCloser(br), nil
+		bufr = bufio.NewReader(r)
+		if _, err := bufr.Peek(1); err == io.EOF {
+			return ioutil.NopCloser(bufr), nil
 		}
-		r = br
+		r = bufr
 	}
 	switch mv.compress {
 	case "gzip":
@@ -287,6 +289,13 @@ func (mv *MessageView) BodyReader(opts ...Option) (io.ReadCloser, error) {
 		}
 		return gr, nil
 	case "deflate":
+		// The "deflate" coding is the zlib format (RFC 7230, section 4.2.2), but
+		// many senders produce a raw DEFLATE stream instead. Accept both: a zlib
+		// stream starts with a two-byte header (compression method 8, header
+		// check) that a raw stream does not start with.
+		if hdr, err := bufr.Peek(2); err == nil && hdr[0]&0x0f == 8 && (uint16(hdr[0])<<8|uint16(hdr[1]))%31 == 0 {
+			return zlib.NewReader(r)
+		}
 		return flate.NewReader(r), nil
 	default:
 		return ioutil.NopCloser(r), nil
